@@ -2,6 +2,9 @@
 
 use std::collections::HashMap;
 use std::sync::atomic::{AtomicU32, Ordering};
+#[cfg(feature = "verif-hooks")]
+use crate::verif_sync::{Arc, Mutex};
+#[cfg(not(feature = "verif-hooks"))]
 use std::sync::{Arc, Mutex};
 
 use bitcoin::block::Header;
